@@ -50,10 +50,10 @@ structure Wrapper where
   P : Int → Int
   /-- the callee gets the wrapper's own `ctx` parameter as its context -/
   passesCallerCtx : Bool
-  /-- index of the write `out[…]` as a function of the callback's own index parameter -/
-  writeIdx : Int → Int
+  /-- index of the write `out[…]` as a function of the callback's own index parameter, `len(in)`, `len(out)` -/
+  writeIdx : Int → Int → Int → Int
   /-- index of the read `in[…]`, likewise -/
-  readIdx : Int → Int
+  readIdx : Int → Int → Int → Int
   /-- the context handed to `f` -/
   ctxSrc : CtxSrc
   /-- `if err != nil` after the callee returned (constant `false` for `Map`) -/
@@ -117,8 +117,8 @@ structure Wrapper.Sound (w : Wrapper) (ctx : Bool) : Prop where
   n : ∀ l, w.n l = l
   P : ∀ p, w.P p = p
   passesCallerCtx : w.passesCallerCtx = ctx
-  writeIdx : ∀ i, w.writeIdx i = i
-  readIdx : ∀ i, w.readIdx i = i
+  writeIdx : ∀ i a b, w.writeIdx i a b = i
+  readIdx : ∀ i a b, w.readIdx i a b = i
   ctxSrc : ctx = true → w.ctxSrc = .closureParam
   failed : ∀ b, w.failed b = (ctx && b)
   retErr : ctx = true → w.retErr = ["nil", "err"]
@@ -199,7 +199,7 @@ def wstep {α} (wc : WCfg α) (s : WSt α) (l : Label) : Option (WSt α) :=
   | .begin w =>
     match step wc.cfg s.core (.begin w), s.core.ws[w]? with
     | some c, some (.call i) =>
-      match getAt wc.inp (wc.w.readIdx i) with
+      match getAt wc.inp (wc.w.readIdx i wc.inp.length s.out.length) with
       | some a => some { s with core := c, calls := s.calls ++ [⟨i, a, wc.w.code.ctxMode && userCtxCancelled wc s⟩] }
       | none => some { s with panic := true }
     | _, _ => none
@@ -208,7 +208,7 @@ def wstep {α} (wc : WCfg α) (s : WSt α) (l : Label) : Option (WSt α) :=
     | some c, some (.inF i) =>
       match r with
       | .ok v =>
-        let k := wc.w.writeIdx i
+        let k := wc.w.writeIdx i wc.inp.length s.out.length
         if k < 0 ∨ s.out.length ≤ k.toNat then some { s with core := c, panic := true }
         else some { s with core := c, out := s.out.set k.toNat (some v) }
       | .err _ => some { s with core := c }
